@@ -15,7 +15,7 @@ def build_route(score, route, rng_seed):
         return P.seq_from_abs(ms)
     if route == "rel":
         return P.seq_from_rel(P.abs_to_rel(ms))
-    if route == "edited":
+    if route in ("edited", "sharedobjs"):
         return None          # built in execute(): needs the base
     if route == "late":
         # note by note, later notes first: events of one tick end up in another stored order
@@ -39,6 +39,15 @@ def execute(case):
     try:
         a = build_route(pair["base"], "abs", idx)
         b = build_route(pair["other"], route, idx)
+        if b is None and route == "sharedobjs":
+            # the two sequences share Message objects wherever their contents agree (the same Message handed to both)
+            objs = {}
+            for m in a.abs._messages:
+                objs.setdefault(json.dumps(P.msg(m), sort_keys=True), []).append(m)
+            b = P.Sequence()
+            for d in score_abs(pair["other"]):
+                pool = objs.get(json.dumps(d, sort_keys=True), [])
+                b.add_absolute_message(pool.pop() if pool else P.mk(d))
         if b is None:
             # history: b held the base content and was compared with a (and read) before; it was then edited in place
             # through messages_abs() into the other content. Possible when both contents have the same message
@@ -66,7 +75,7 @@ def execute(case):
         # absolute-side operation (content compared through the projection as well)
         for ops in (("transpose",), ("set_channel",), ("pad",), ("cutoff",), ("transpose", "add_absolute_message"),
                     ("add_absolute_message", "transpose")):
-            x = build_route(pair["other"], route if route != "edited" else "abs", idx)
+            x = build_route(pair["other"], route if route not in ("edited", "sharedobjs") else "abs", idx)
             for op in ops:
                 if op == "transpose":
                     x.transpose(1)
@@ -104,7 +113,8 @@ def run(ctx):
         pairs = ctx.generate("Gen_Equals", "Gen_Equals.cfg", env={"VERIF_TIER": ctx.tier})
         cases = []
         for p in pairs:
-            routes = ["abs", "rel", "shuffled", "late", "edited"] if p["kind"] == "none" or ctx.thorough else [("abs", "rel", "shuffled", "late", "edited")[len(cases) % 5]]
+            RT = ("abs", "rel", "shuffled", "late", "edited", "sharedobjs")
+            routes = list(RT) if p["kind"] == "none" or ctx.thorough else [RT[len(cases) % 6], RT[(len(cases) + 3) % 6]]
             for r in routes:
                 cases.append((len(cases), p, r))
     obs = pmap(execute, cases, chunk=300)
